@@ -537,9 +537,28 @@ func ruleC05e(c *Ctx) []*report.Result {
 					continue
 				}
 				if f := call.Common().StaticCallee(); f != nil && f.String() == "(reflect.Value).CanInterface" {
-					for _, rb := range m["registry"] {
-						if rb == b || rb.Dominates(b) {
-							return true
+					// a lookup keyed by the static type of this very value
+					// (v.Type()) in a block that dominates the test
+					v := call.Common().Args[0]
+					for _, lb := range fn.Blocks {
+						if !(lb == b || lb.Dominates(b)) {
+							continue
+						}
+						for _, li := range lb.Instrs {
+							lk, ok := li.(*ssa.Lookup)
+							if !ok {
+								continue
+							}
+							if u, ok := lk.X.(*ssa.UnOp); !ok {
+								continue
+							} else if _, isG := u.X.(*ssa.Global); !isG {
+								continue
+							}
+							if tc, ok := lk.Index.(*ssa.Call); ok {
+								if g := tc.Common().StaticCallee(); g != nil && g.String() == "(reflect.Value).Type" && tc.Common().Args[0] == v {
+									return true
+								}
+							}
 						}
 					}
 					return false
@@ -813,14 +832,14 @@ func init() { register("C06.g", ruleC06g) }
 // and what is printed is the wrapped value — field 0 of the one-field
 // wrapper struct, one level deeper.
 func ruleC06g(c *Ctx) []*report.Result {
-	r := report.NewResult("C06.g", "on the success edge of every test for the Safe/Unsafe wrapper type in the printer: the override of that side is installed in the guarded region and dominates every call there that can write; a boolean result is set to true; a reflective print of the content prints Field(0) of the tested value at depth+k, k>=1", 8)
+	r := report.NewResult("C06.g", "on the success edge of every declassifier test in the printer (registry lookup, SafeValue assertion) the safe override is installed and its restore deferred; on the success edge of every test for the Safe/Unsafe wrapper type: the override of that side is installed in the guarded region and dominates every call there that can write; a boolean result is set to true; a reflective print of the content prints Field(0) of the tested value at depth+k, k>=1", 8)
 	safeFam, _ := c.installers("override", 1)
 	unsafeFam, _ := c.installers("override", 2)
 	if len(safeFam) == 0 || len(unsafeFam) == 0 {
 		r.Undecide("override installers not found")
 		return []*report.Result{r}
 	}
-	tests := 0
+	tests, declass := 0, 0
 	for _, fn := range c.P.ModuleFunctions() {
 		if recvNamed(fn) != tPP || fn.Blocks == nil {
 			continue
@@ -831,20 +850,28 @@ func ruleC06g(c *Ctx) []*report.Result {
 			if !ok {
 				continue
 			}
-			side := ""
+			side, what := "", "wrapper"
 			for _, k := range c.condKinds(iff.Cond, 0) {
-				switch k {
-				case "type==safewrap", "assert:safewrap":
+				switch {
+				case k == "type==safewrap" || k == "assert:safewrap":
 					side = "safe"
-				case "type==unsafewrap", "assert:unsafewrap":
+				case k == "type==unsafewrap" || k == "assert:unsafewrap":
 					side = "unsafe"
+				case strings.HasPrefix(k, "registry:"):
+					side, what = "safe", "registered type"
+				case k == "assert:safevalue":
+					side, what = "safe", "SafeValue"
 				}
 			}
 			if side == "" {
 				continue
 			}
 			T := b.Succs[0]
-			tests++
+			if what == "wrapper" {
+				tests++
+			} else {
+				declass++
+			}
 			fam := safeFam
 			if side == "unsafe" {
 				fam = unsafeFam
@@ -853,7 +880,7 @@ func ruleC06g(c *Ctx) []*report.Result {
 			if pos == "" || strings.HasSuffix(pos, ":0") {
 				pos = c.P.Pos(fn.Pos())
 			}
-			construct := name + " / " + side + " wrapper recognised @" + c.P.Pos(firstPos(T))
+			construct := name + " / " + side + " " + what + " recognised @" + c.P.Pos(firstPos(T))
 			var region []*ssa.BasicBlock
 			if len(T.Preds) == 1 { // otherwise the success edge joins other paths at once: nothing is done for the wrapper
 				for _, x := range fn.Blocks {
@@ -893,6 +920,12 @@ func ruleC06g(c *Ctx) []*report.Result {
 						earlyRestore = rc
 					}
 				}
+			}
+			if what != "wrapper" {
+				// a declassifier other than a wrapper only has to install the
+				// override for the code that follows: its restore is deferred
+				r.Check(earlyRestore == nil, construct+" / override stays in force", pos, "the override installed for a "+what+" is restored at once (the restore must be deferred): the value is printed as if it had not been declared safe")
+				continue
 			}
 			printed, unwrapped := false, false
 			for _, x := range region {
@@ -992,8 +1025,60 @@ func ruleC06g(c *Ctx) []*report.Result {
 			}
 		}
 	}
+	// a declassifier that is evaluated but decides nothing (an if with an
+	// emptied body leaves the lookup or the assertion behind, without branch)
+	usedAsCondition := func(v ssa.Value) bool {
+		refs := v.Referrers()
+		if refs == nil {
+			return false
+		}
+		for _, ref := range *refs {
+			switch x := ref.(type) {
+			case *ssa.If, *ssa.Return:
+				return true
+			case *ssa.Extract:
+				if x.Index == 1 || x.Tuple != v {
+					if er := x.Referrers(); er != nil {
+						for _, e := range *er {
+							switch e.(type) {
+							case *ssa.If, *ssa.Return:
+								return true
+							}
+						}
+					}
+				}
+			case *ssa.UnOp, *ssa.Phi:
+				return true // combined into a larger condition
+			}
+		}
+		return false
+	}
+	for _, fn := range c.P.ModuleFunctions() {
+		if recvNamed(fn) != tPP || fn.Blocks == nil {
+			continue
+		}
+		for _, b := range fn.Blocks {
+			for _, ins := range b.Instrs {
+				switch x := ins.(type) {
+				case *ssa.Lookup:
+					if u, ok := x.X.(*ssa.UnOp); ok {
+						if g, ok := u.X.(*ssa.Global); ok && pkgPathOfGlobal(g) == pkgRfmt {
+							r.Check(usedAsCondition(x), shortFn(fn.String())+" / registry lookup decides @"+c.P.Pos(x.Pos()), c.P.Pos(x.Pos()), "the registry "+g.Name()+" is consulted but the result decides nothing: a registered safe type is printed as unsafe on this route")
+						}
+					}
+				case *ssa.TypeAssert:
+					if x.CommaOk && c.classifyType(x.AssertedType) == "safevalue" {
+						r.Check(usedAsCondition(x), shortFn(fn.String())+" / SafeValue test decides @"+c.P.Pos(x.Pos()), c.P.Pos(x.Pos()), "the operand is tested for SafeValue but the result decides nothing")
+					}
+				}
+			}
+		}
+	}
 	if tests < 4 {
 		r.Undecide(fmt.Sprintf("only %d wrapper tests found in the printer (floor 4: Safe and Unsafe on the plain and on the reflective route)", tests))
+	}
+	if declass < 6 {
+		r.Undecide(fmt.Sprintf("only %d registry/SafeValue tests found in the printer (floor 6: static and dynamic registry lookup and SafeValue on the routes of printArg and printValue)", declass))
 	}
 	return []*report.Result{r}
 }
